@@ -14,7 +14,7 @@ def check(pid, level, technique, text, note, ref):
 EXH = "bounded-exhaustive enumeration on the real engine"
 
 check("C15", "exploration",
-      "bounded-exhaustive enumeration: all ordered triples of a 92-value (thorough 135) alphabet and of 37 key encodings executed on the real Value/Key impls and through templates, against an independent exact reference",
+      "bounded-exhaustive enumeration: all ordered triples of a 95-value (thorough 140) alphabet and of 37 key encodings executed on the real Value/Key impls and through templates, against an independent exact reference",
       "Every triple of the value alphabet (every kind, every integer encoding, f64/128-bit boundaries, nested and incomparable containers) is checked for the equivalence and total-order laws and against an independent structural/exact-rational reference for ==; every pair is rendered through ==, !=, <, <=, >, >=, sort, unique; every key encoding is inserted into maps of 0..=8 entries and probed with every other encoding through five lookup forms. Exhaustive within the alphabets: a law violation needs at most three values, and the alphabets contain every representation class the implementation distinguishes.",
       "Alphabet, not all values: integers/floats other than the listed boundaries, strings beyond the listed ones and nesting deeper than 64 are not explored. The reference comparison (mccore::numref, ref_eq) is trusted.",
       "DESIGN.md §4 C15")
